@@ -36,3 +36,4 @@ void __vf_mutex_unlock(void* m)
 int  __vf_lock_depth(void) { return lock_depth; }
 void __vf_register_alloc(const void* p) {}
 void __vf_access(const void* p, int w) {}
+void __vf_lib_write(const void* p) {}
